@@ -37,17 +37,17 @@ pub fn run(rep: &mut Rep) {
         pub_ack_variants: vec![(0, 0), (3, 1)],
         ..Default::default()
     };
-    rep.note(&format!("exhaustive: Receive Maximum R in {{1,2,3}}: every history of <= {depth} actions over {{publish QoS 0/1/2, deliver PUBACK/PUBREC/PUBCOMP of any outstanding publish with success or failure reason}}, also with Maximum Packet Size 64 and 300-byte publishes that must be refused without touching the quota; model compared at every step, hook H3 conservation invariant (internal quota + outstanding = R) at every step, end-of-script probe (exactly R - outstanding further publishes accepted)"));
+    rep.note(&format!("exhaustive: Receive Maximum R in {{1,2,3}} (announced in a CONNACK received by connect() or, for R = 2 and R = 1 + Maximum Packet Size, by authorize() at the end of an AUTH exchange): every history of <= {depth} actions over {{publish QoS 0/1/2, deliver PUBACK/PUBREC/PUBCOMP of any outstanding publish with success or failure reason}}, also with Maximum Packet Size 64 and 300-byte publishes that must be refused without touching the quota; model compared at every step, hook H3 conservation invariant (internal quota + outstanding = R) at every step, end-of-script probe (exactly R - outstanding further publishes accepted)"));
     // with a Maximum Packet Size announced as well: publishes refused for their size must not touch the quota
     let mut am = a.clone();
     am.kinds = vec![Kind::Pub1, Kind::Pub2, Kind::PubBig];
-    for (r, m) in [(1u16, None), (2, None), (3, None), (1, Some(64u32)), (2, Some(64))] {
-        let name = format!("exh-r{r}-m{}", m.unwrap_or(0));
+    for (r, m, via_auth) in [(1u16, None, false), (2, None, false), (3, None, false), (1, Some(64u32), false), (2, Some(64), false), (2, None, true), (1, Some(64), true)] {
+        let name = format!("exh-r{r}-m{}{}", m.unwrap_or(0), if via_auth { "-auth" } else { "" });
         let seed = rep.seed;
         let a = if m.is_some() { &am } else { &a };
-        let depth = if m.is_some() { depth - 1 } else { depth };
+        let depth = if m.is_some() || via_auth { depth - 1 } else { depth };
         let body = |rep: &mut Rep, ch: &mut Chooser| {
-            let mut w = World::boot(WorldCfg { seed, receive_max: Some(r), max_packet: m, h3: true, ..Default::default() });
+            let mut w = World::boot(WorldCfg { seed, receive_max: Some(r), max_packet: m, h3: true, via_auth: Some(via_auth), ..Default::default() });
             let acts = run_path(&mut w, a, ch);
             if m.is_some() {
                 rep.add("oversize_publishes_in_quota_histories", acts.iter().filter(|x| matches!(x, Act::Start(Kind::PubBig))).count() as i64);
@@ -59,7 +59,7 @@ pub fn run(rep: &mut Rep) {
             probe_and_report(rep, &mut w, &id);
             rep.add("evaluations", 1);
             rep.add("paths_enumerated", 1);
-            rep.distinct(&(r, m, w.shape()));
+            rep.distinct(&(r, m, via_auth, w.shape()));
             if harvest(rep, &mut w, &id) == 0 && acts.len() == depth {
                 rep.sample(|| format!("{id} R={r} {:?}", acts));
             }
@@ -222,7 +222,7 @@ pub fn run(rep: &mut Rep) {
                 continue;
             }
             let mut rng = Rng::new(rep.seed.wrapping_mul(31).wrapping_add(idx));
-            let mut w = World::boot(WorldCfg { seed: rep.seed + k, receive_max: r, h3: !big, ..Default::default() });
+            let mut w = World::boot(WorldCfg { seed: rep.seed + k, receive_max: r, h3: !big, via_auth: Some(k % 2 == 1), ..Default::default() });
             w.sim.log_enabled = !big;
             w.light = big;
             let rr = w.r;
